@@ -30,7 +30,12 @@ def run(ctx):
         'R2 the three conductivity iterations are bounded (counter, increment '
         'on every path, error on the limit)',
         'R4 the coolant temperature of a pin is the sum over its adjacent '
-        'subchannels weighted by the pin-to-subchannel fractions']
+        'subchannels weighted by the pin-to-subchannel fractions',
+        'R5 the fuel shell march runs from the surface inwards, evaluates '
+        'every conductivity with the material of the shell being crossed '
+        '(_fuel_cond(i, .) with the loop index) and carries nothing but the '
+        'temperature from one shell to the next (no upward-exposed local in '
+        'the loop body)']
     ctx.not_decided += ['gap with radiation (sign of the iterate)',
                         'clad ID >= MW (needs monotonicity of ln)',
                         'conduction residuals as numbers']
@@ -40,6 +45,8 @@ def run(ctx):
     r1(ctx)
     r2(ctx)
     r4(ctx)
+    r5(ctx)
+    ctx.min_instances('C13.R5', 3)
     ctx.min_instances('C13.R1', 12)
     ctx.min_instances('C13.R2', 3)
     ctx.min_instances('C13.R4', 3)
@@ -284,3 +291,105 @@ def r4(ctx):
                 defs[0][1] if defs else None,
                 'per-subchannel weights are the pin fractions by type',
                 key='dassh.region_rodded:RoddedRegion | _q_p2sc definition')
+
+
+# ---------------------------------------------------------------------------
+# R5: shell march
+
+def _loads(node):
+    return [n for n in ast.walk(node) if isinstance(n, ast.Name)
+            and isinstance(n.ctx, ast.Load)]
+
+
+def _exposed(body, defined):
+    """Names read before any definite definition in a statement list
+    (definitions inside while/for/if bodies do not count afterwards, except
+    those made on both branches of an if)."""
+    out = []
+    defined = set(defined)
+    for st in body:
+        if isinstance(st, (ast.While, ast.For)):
+            for n in _loads(st.test if isinstance(st, ast.While)
+                            else st.iter):
+                if n.id not in defined:
+                    out.append(n)
+            inner = set(defined)
+            if isinstance(st, ast.For):
+                inner |= {x.id for x in ast.walk(st.target)
+                          if isinstance(x, ast.Name)}
+            # names assigned anywhere in the loop are loop-carried inside it:
+            # only report reads of names never defined before the loop *and*
+            # not defined earlier in the loop body itself
+            out += _exposed(st.body, inner)
+            continue
+        if isinstance(st, ast.If):
+            for n in _loads(st.test):
+                if n.id not in defined:
+                    out.append(n)
+            out += _exposed(st.body, defined)
+            out += _exposed(st.orelse, defined)
+            both = _defined_by(st.body) & _defined_by(st.orelse)
+            defined |= both
+            continue
+        val = st.value if isinstance(st, (ast.Assign, ast.AugAssign,
+                                          ast.Expr, ast.Return)) else st
+        if val is not None:
+            for n in _loads(val):
+                if n.id not in defined:
+                    out.append(n)
+        if isinstance(st, ast.AugAssign) and isinstance(st.target, ast.Name) \
+                and st.target.id not in defined:
+            out.append(st.target)
+        if isinstance(st, ast.Assign):
+            for t in st.targets:
+                for x in ast.walk(t):
+                    if isinstance(x, ast.Name) and isinstance(x.ctx,
+                                                              ast.Store):
+                        defined.add(x.id)
+                    elif isinstance(x, ast.Name) and x.id not in defined:
+                        out.append(x)
+    return out
+
+
+def _defined_by(body):
+    d = set()
+    for st in body:
+        if isinstance(st, ast.Assign):
+            for t in st.targets:
+                d |= {x.id for x in ast.walk(t) if isinstance(x, ast.Name)
+                      and isinstance(x.ctx, ast.Store)}
+    return d
+
+
+def r5(ctx):
+    fi = ctx.repo.func('pin_model', 'PinModel.calc_fuel_temps')
+    loops = [n for n in fi.node.body if isinstance(n, ast.For)]
+    if len(loops) != 1 or not isinstance(loops[0].target, ast.Name):
+        raise AnalysisError('calc_fuel_temps: shell loop')
+    lp = loops[0]
+    iv = lp.target.id
+    ctx.require(call_name(lp.iter) == 'reversed', 'C13.R5', fi, lp,
+                'the shell march must run from the outermost shell (known '
+                'surface temperature) inwards: reversed(range(n))',
+                key=fi.full + ' | march direction')
+    calls = [c for c in ast.walk(lp) if isinstance(c, ast.Call)
+             and call_name(c) == 'self._fuel_cond']
+    bad = [c for c in calls if not (c.args and src(c.args[0]) == iv)]
+    ctx.require(calls and not bad, 'C13.R5', fi, bad[0] if bad else lp,
+                'every conductivity inside shell %s must be evaluated with '
+                'that shell\'s own material: _fuel_cond(%s, T)' % (iv, iv),
+                note='%d evaluations' % len(calls),
+                key=fi.full + ' | own material')
+    outside = [c for c in ast.walk(fi.node) if isinstance(c, ast.Call)
+               and call_name(c) == 'self._fuel_cond' and c not in calls]
+    allowed = set(fi.params) | {iv, 'self', 'np', '_ERROR_MSG'}
+    exp = [n for n in _exposed(lp.body, allowed)]
+    names = sorted({n.id for n in exp})
+    ctx.require(not names and not outside, 'C13.R5', fi,
+                exp[0] if exp else (outside[0] if outside else lp),
+                'only the temperature is carried from one shell to the next; '
+                '%s reach(es) a shell from the previous one / from before '
+                'the march (a conductivity found for another shell\'s '
+                'material would be used)' % (names or 'a conductivity '
+                                             'evaluated outside the loop'),
+                key=fi.full + ' | loop-carried state')
